@@ -56,9 +56,17 @@ func validityProblems(p scen.Proto, cfg interface{}, id party.ID, n int) (class,
 	if sh.Sign() == 0 {
 		return "zero-secret", "zero secret share"
 	}
-	if p != scen.Doerner && m.OwnID(id) != id {
-		return "own-identifier", fmt.Sprintf("own identifier is %q", m.OwnID(id))
+	// (a damaged identifier that happens to name ANOTHER party of the table is undetectable when that
+	// party's entry fits the secret - with t = 0 all shares are equal; what a decoder can and must
+	// refuse is an absent identifier, or one without an entry: the latter is "own public share missing")
+	if p != scen.Doerner && m.OwnID(id) == "" {
+		return "own-identifier", "own identifier is empty"
 	}
+	id = m.OwnID(id)
+	if p == scen.Doerner {
+		id = m.IDs[0]
+	}
+	m = &scen.Material{Proto: p, IDs: []party.ID{id}, Cfg: map[party.ID]interface{}{id: cfg}}
 	Y := m.PublicKey(id)
 	if Y.Inf {
 		return "identity-point", "group key is the identity / invalid"
